@@ -179,7 +179,7 @@ func ReduceLiteralFields(s string) string {
 					}
 				}
 				pre := s[:i]
-				pre = strings.TrimSuffix(pre, "~")
+				pre = strings.TrimRight(pre, "~")
 				s = pre + val + s[k:]
 				found = true
 				break
@@ -649,12 +649,16 @@ func (r *Resolver) inlineResult(c *ssa.Call, idx int, d int) *Term {
 		r.subs[h] = sub
 	}
 	var rets []*Term
-	for _, b := range h.Blocks {
-		ret, ok := b.Instrs[len(b.Instrs)-1].(*ssa.Return)
-		if !ok || len(ret.Results) <= idx {
-			continue
+	if rec := sub.recordResult(h, idx); rec != nil {
+		rets = []*Term{rec}
+	} else {
+		for _, b := range h.Blocks {
+			ret, ok := b.Instrs[len(b.Instrs)-1].(*ssa.Return)
+			if !ok || len(ret.Results) <= idx {
+				continue
+			}
+			rets = append(rets, sub.Of(ret.Results[idx]))
 		}
-		rets = append(rets, sub.Of(ret.Results[idx]))
 	}
 	if len(rets) == 0 {
 		return nil
@@ -683,6 +687,164 @@ func (r *Resolver) inlineResult(c *ssa.Call, idx int, d int) *Term {
 		return nil
 	}
 	return out
+}
+
+// recordResult: result idx of helper h (resolver r) is a record — one struct-typed local of a type declared in the
+// module, filled in field by field on the way and handed back by value at every return that can succeed ("validate,
+// collect what was looked up, return it"). The record is the tuple of the fields that are assigned exactly once, by a
+// store that lies on every path to a succeeding return; the other fields stay opaque. What a failing return hands
+// back is not described (the error is).
+func (r *Resolver) recordResult(h *ssa.Function, idx int) *Term {
+	rt := h.Signature.Results().At(idx).Type()
+	named, ok := rt.(*types.Named)
+	if !ok || named.Obj().Pkg() == nil || !prog.InModule(named.Obj().Pkg().Path()) {
+		return nil
+	}
+	st, ok := named.Underlying().(*types.Struct)
+	if !ok || r.P.IsGeneratedPos(named.Obj().Pos()) {
+		return nil
+	}
+	var A *ssa.Alloc
+	var succ []*ssa.BasicBlock
+	nres := h.Signature.Results().Len()
+	hasErr := nres > 0 && h.Signature.Results().At(nres-1).Type().String() == "error"
+	for _, b := range h.Blocks {
+		ret, ok := b.Instrs[len(b.Instrs)-1].(*ssa.Return)
+		if !ok || len(ret.Results) <= idx {
+			continue
+		}
+		if hasErr && idx != nres-1 && failingReturn(b, ret.Results[nres-1]) {
+			continue
+		}
+		succ = append(succ, b)
+		u, ok := ret.Results[idx].(*ssa.UnOp)
+		if !ok || u.Op != token.MUL {
+			return nil
+		}
+		al, ok := u.X.(*ssa.Alloc)
+		if !ok || (A != nil && al != A) {
+			return nil
+		}
+		A = al
+	}
+	if A == nil || len(succ) == 0 {
+		return nil
+	}
+	stores := map[int][]*ssa.Store{}
+	opaque := map[int]bool{}
+	for _, ref := range *A.Referrers() {
+		switch x := ref.(type) {
+		case *ssa.FieldAddr:
+			for _, rr := range *x.Referrers() {
+				switch y := rr.(type) {
+				case *ssa.Store:
+					if y.Addr == x {
+						stores[x.Field] = append(stores[x.Field], y)
+					} else {
+						opaque[x.Field] = true
+					}
+				case *ssa.UnOp, *ssa.DebugRef:
+				case ssa.CallInstruction:
+					if r.Mods == nil || r.Mods.CallWrites(y, x) {
+						opaque[x.Field] = true
+					}
+				case *ssa.FieldAddr:
+					if r.fieldAddrWritten(y) {
+						opaque[x.Field] = true
+					}
+				default:
+					opaque[x.Field] = true
+				}
+			}
+		case *ssa.UnOp, *ssa.DebugRef:
+		case *ssa.Store:
+			// a named result is stored to itself on `return rec, ...`
+			if u, isLoad := x.Val.(*ssa.UnOp); x.Addr == ssa.Value(A) && isLoad && u.Op == token.MUL && u.X == ssa.Value(A) {
+				continue
+			}
+			return nil
+		default:
+			return nil // whole stores, the address handed on
+		}
+	}
+	t := &Term{Op: "mk", Name: allocName(A)}
+	n := 0
+	for i := 0; i < st.NumFields(); i++ {
+		fname := fieldName(A.Type(), i)
+		var val *Term
+		if ss := stores[i]; len(ss) == 1 && !opaque[i] {
+			dom := true
+			for _, b := range succ {
+				if !(ss[0].Block() == b || ss[0].Block().Dominates(b)) {
+					dom = false
+				}
+			}
+			if dom {
+				val = r.Of(ss[0].Val)
+				n++
+			}
+		} else if len(stores[i]) == 0 && !opaque[i] {
+			val = &Term{Op: "zero", Name: "zero:" + fname}
+		}
+		if val == nil {
+			val = &Term{Op: "alloc", Name: r.P.Name(h) + "." + fname, Unstable: true}
+		}
+		t.Args = append(t.Args, &Term{Op: "fieldinit", Name: fname, Args: []*Term{val}})
+	}
+	if n == 0 {
+		return nil
+	}
+	return t
+}
+
+// failingReturn: the error handed back at this return cannot be nil (it is built here, or the return is reached
+// only through the non-nil side of a test of it).
+func failingReturn(b *ssa.BasicBlock, e ssa.Value) bool {
+	if c, ok := e.(*ssa.Const); ok {
+		return c.Value != nil
+	}
+	if c, ok := e.(*ssa.Call); ok && !c.Call.IsInvoke() {
+		name := ""
+		if f := c.Call.StaticCallee(); f != nil {
+			name = f.Name()
+		} else if g, ok := c.Call.Value.(*ssa.UnOp); ok {
+			if gl, ok := g.X.(*ssa.Global); ok {
+				name = gl.Name()
+			}
+		}
+		switch name {
+		case "Wrap", "Wrapf", "Errorf", "New", "Error", "Register":
+			return true
+		}
+	}
+	for _, d := range b.Parent().Blocks {
+		if len(d.Succs) != 2 || d.Succs[0] == d.Succs[1] || len(d.Instrs) == 0 {
+			continue
+		}
+		iff, ok := d.Instrs[len(d.Instrs)-1].(*ssa.If)
+		if !ok {
+			continue
+		}
+		bo, ok := iff.Cond.(*ssa.BinOp)
+		if !ok || (bo.Op != token.NEQ && bo.Op != token.EQL) {
+			continue
+		}
+		x, y := bo.X, bo.Y
+		if c, isC := x.(*ssa.Const); isC && c.Value == nil {
+			x, y = y, x
+		}
+		if c, isC := y.(*ssa.Const); !isC || c.Value != nil || x != e {
+			continue
+		}
+		side := d.Succs[0]
+		if bo.Op == token.EQL {
+			side = d.Succs[1]
+		}
+		if len(side.Preds) == 1 && (side == b || side.Dominates(b)) {
+			return true
+		}
+	}
+	return false
 }
 
 // fieldOfLocal: the term of field `name` of a struct-valued local variable (as a direct field read in this
@@ -738,6 +900,9 @@ func (r *Resolver) substParamTerms(t *Term, args []*Term, vals []ssa.Value, dept
 		var i int
 		if _, err := fmt.Sscanf(t.Args[0].Name, "#%d", &i); err == nil && i < len(args) && args[i] != nil {
 			if a := args[i]; a.Op == "un" && a.Name == "&" && len(a.Args) == 1 {
+				if a.Args[0] != nil && a.Args[0].Op == "mk" {
+					return FieldOf(a.Args[0], t.Name)
+				}
 				return &Term{Op: "field", Name: t.Name, Args: []*Term{a.Args[0]}, Unstable: t.Unstable || a.Args[0].Unstable}
 			}
 		}
